@@ -220,25 +220,29 @@ func (c *serverConn) LocalAddr() net.Addr {
 }
 
 func (c *serverConn) ReadFrom(b []byte) (int, net.Addr, error) {
-	n, remoteAddr, path, lastHop, err := c.readPkt(b)
-	if err != nil {
-		return 0, nil, err
+	for {
+		n, remoteAddr, path, lastHop, err := c.readPkt(b)
+		if err != nil {
+			return 0, nil, err
+		}
+		rpath, ok := path.(snet.RawPath)
+		if !ok {
+			continue // ignore packet with unexpected path type
+		}
+		replyPather := snet.DefaultReplyPather{}
+		replyPath, err := replyPather.ReplyPath(rpath)
+		if err != nil {
+			// An error returned from here makes the QUIC transport shut down
+			// for good: ignore packets with paths that cannot be reversed.
+			continue
+		}
+		remoteAddrPath := udpAddrPath{
+			addr:    remoteAddr,
+			path:    replyPath,
+			nextHop: lastHop,
+		}
+		return n, remoteAddrPath, nil
 	}
-	rpath, ok := path.(snet.RawPath)
-	if !ok {
-		return 0, nil, errUnexpectedPathType
-	}
-	replyPather := snet.DefaultReplyPather{}
-	replyPath, err := replyPather.ReplyPath(rpath)
-	if err != nil {
-		return 0, nil, errPathReversal
-	}
-	remoteAddrPath := udpAddrPath{
-		addr:    remoteAddr,
-		path:    replyPath,
-		nextHop: lastHop,
-	}
-	return n, remoteAddrPath, err
 }
 
 func (c *serverConn) WriteTo(b []byte, addr net.Addr) (int, error) {
